@@ -1567,3 +1567,72 @@ m("C20", "false-option-ignored", ZP,
   "            if value:\n                setattr(self, attribute, value)")
 m("C20", "refactor-text-branch", PG,
   '''        if mode == "text":''', '''        if "text" == mode:''', expect="silent")
+
+# ---- C14 -------------------------------------------------------------------
+m("C14", "render-stores-on-instance", TP,
+  '''        self.cook_check()
+        stream = self.output_stream_factory()''',
+  '''        self.cook_check()
+        stream = self._stream = self.output_stream_factory()''')
+m("C14", "shared-stream", TP,
+  '''        stream = self.output_stream_factory()
+        target_language = __kw.get("target_language")''',
+  '''        stream = self.__dict__.setdefault("_stream", [])
+        del stream[:]
+        target_language = __kw.get("target_language")''')
+m("C14", "rcontext-class-level", TP,
+  '''        rcontext: dict[str, Any] = {}
+        self.cook_check()''',
+  '''        rcontext = self._rcontext
+        self.cook_check()''')
+m("C14", "repeat-dict-cached", ZT,
+  '''        if 'repeat' not in _kw:
+            _kw['repeat'] = RepeatDict({})''',
+  '''        if 'repeat' not in _kw:
+            if not hasattr(self, '_repeat'):
+                self._repeat = RepeatDict({})
+            _kw['repeat'] = self._repeat''')
+m("C14", "mutable-module-global", C,
+  '''        body += template("__marker = object()")''',
+  '''        body += template("__marker = object()")
+        body += template("__seen = []")''')
+m("C14", "translate-ident-per-name", C,
+  '''        msgid = identifier("msgid", id(node))''',
+  '''        msgid = identifier("msgid", node.msgid)''', expect="silent")
+# (the msgid local is written and read after the body: it does not have to
+#  survive a child emission, so a per-name suffix is harmless)
+m("C14", "repeat-index-shared", C,
+  '''        index = identifier("__index", id(node))''',
+  '''        index = identifier("__index")''')
+m("C14", "flag-first", TP,
+  '''        for name, function in functions.items():
+            setattr(self, "_" + name, function)
+''',
+  '''        self._cooked = True
+        for name, function in functions.items():
+            setattr(self, "_" + name, function)
+''')
+m("C14", "builtins-updated-in-place", TP,
+  '''        builtins_dict = self.builtins.copy()
+        builtins_dict.update(self.extra_builtins)''',
+  '''        builtins_dict = self.builtins
+        builtins_dict.update(self.extra_builtins)''')
+m("C14", "lock-released-early", LO,
+  '''        acquire_lock()
+        try:
+            module = sys.modules.get(base)''',
+  '''        acquire_lock()
+        release_lock()
+        try:
+            module = sys.modules.get(base)''')
+m("C14", "class-level-registry", LO,
+  '''        self.search_path = search_path
+        self.registry = {}
+        self.kwargs = kwargs''',
+  '''        self.search_path = search_path
+        self.kwargs = kwargs''', expect="silent")   # annotation only; no class-level dict
+m("C14", "refactor-render-order", TP,
+  '''        econtext = Scope(__kw)
+        rcontext: dict[str, Any] = {}''',
+  '''        rcontext: dict[str, Any] = {}
+        econtext = Scope(__kw)''', expect="silent")
